@@ -598,6 +598,33 @@ theorem TV.Props.C16.privilege_accepted_iff (unprivileged has needs : Bool) :
       (unprivileged = false ∧ has = true) ∨ (unprivileged = true ∧ needs = false) := by
   cases unprivileged <;> cases has <;> cases needs <;> simp [TV.Builder.validatePrivilege]
 
+/-- **C16, timing.**  The command line accepts a timing configuration exactly when every duration is inside its documented
+range and the round's minimum does not exceed its maximum: read-timeout 10–100 ms, grace 10–1000 ms, refresh 50–1000 ms,
+at least one report cycle. -/
+theorem TV.Props.C16.timing_accepted_iff (t : TV.Builder.Timing) :
+    TV.Builder.validateTiming t = true ↔
+      (10000000 ≤ t.readTimeout ∧ t.readTimeout ≤ 100000000) ∧ t.minRound ≤ t.maxRound ∧
+      (10000000 ≤ t.grace ∧ t.grace ≤ 1000000000) ∧ (50000000 ≤ t.refresh ∧ t.refresh ≤ 1000000000) ∧ 0 < t.reportCycles := by
+  simp only [TV.Builder.validateTiming, TV.Consts.tuic_MIN_READ_TIMEOUT_MS, TV.Consts.tuic_MAX_READ_TIMEOUT_MS,
+    TV.Consts.tuic_MIN_GRACE_DURATION_MS, TV.Consts.tuic_MAX_GRACE_DURATION_MS, TV.Consts.tuic_TUI_MIN_REFRESH_RATE_MS,
+    TV.Consts.tuic_TUI_MAX_REFRESH_RATE_MS]
+  by_cases h1 : t.readTimeout < 10000000 <;> by_cases h2 : t.readTimeout > 100000000 <;> by_cases h3 : t.minRound > t.maxRound <;>
+    by_cases h4 : t.grace < 10000000 <;> by_cases h5 : t.grace > 1000000000 <;> by_cases h6 : t.refresh < 50000000 <;>
+    by_cases h7 : t.refresh > 1000000000 <;> by_cases h8 : t.reportCycles = 0 <;>
+    simp [h1, h2, h3, h4, h5, h6, h7, h8] <;> omega
+
+/-- what an accepted timing configuration gives the tracing loop: the hypotheses the C08 theorems state about the round
+durations (`min ≤ max`) and a positive grace period -/
+theorem TV.Props.C16.accepted_timing_is_sane (t : TV.Builder.Timing) (h : TV.Builder.validateTiming t = true) :
+    t.minRound ≤ t.maxRound ∧ 0 < t.grace ∧ 0 < t.readTimeout ∧ t.readTimeout ≤ t.grace * 10 := by
+  have := (TV.Props.C16.timing_accepted_iff t).1 h
+  omega
+
+/-- the flows and dot reports are refused exactly for the classic strategy; every other mode takes every strategy -/
+theorem TV.Props.C16.flow_modes_need_flows (mode : TV.Builder.OutMode) (s : TV.Strat.MStrat) :
+    TV.Builder.validateFlows mode s = false ↔ (mode = .flows ∨ mode = .dot) ∧ s = .classic := by
+  cases mode <;> cases s <;> simp [TV.Builder.validateFlows]
+
 #print axioms TV.Props.C16.layer_cli
 #print axioms TV.Props.C16.layer_file
 #print axioms TV.Props.C16.layer_default
@@ -658,3 +685,6 @@ theorem TV.Props.C16.privilege_accepted_iff (unprivileged has needs : Bool) :
 #print axioms TV.Props.C16.several_targets_only_for_icmp
 #print axioms TV.Props.C16.single_target_accepted
 #print axioms TV.Props.C16.privilege_accepted_iff
+#print axioms TV.Props.C16.timing_accepted_iff
+#print axioms TV.Props.C16.accepted_timing_is_sane
+#print axioms TV.Props.C16.flow_modes_need_flows
